@@ -147,9 +147,65 @@ def exhaustive_structures(rng):
                         out.append((Op("OPad", [A, Scal("float", rng.choice([0, 2]))], [[1, d]] + [list(p_) for p_ in pads]), "exhaustive pad-ttm") + T)
     return out
 
+def _dtype_block(V, rng, tier):
+    """cat of operands of different dtypes (integer-valued cores: the result is EXACTLY the dense concatenation in torch's promoted dtype, whichever
+    operand comes first) and pad with a complex fill value on real tensors / operators (the result is complex, the fill keeps its imaginary part)"""
+    import torch, torchtt, itertools
+    dist = {}
+    dts = [torch.float32, torch.float64, torch.complex64, torch.complex128]
+    def mk(dt, N, R, ttm=False, M=None):
+        cs = []
+        for k in range(len(N)):
+            shp = (R[k], M[k], N[k], R[k + 1]) if ttm else (R[k], N[k], R[k + 1])
+            a = np.array([rng.randint(-2, 2) for _ in range(int(np.prod(shp)))], dtype=np.float64).reshape(shp)
+            if dt.is_complex: a = a + 1j * np.array([rng.randint(-1, 1) for _ in range(int(np.prod(shp)))]).reshape(shp)
+            cs.append(torch.tensor(a, dtype=dt))
+        return torchtt.TT(cs)
+    pairs = [(a, b) for a, b in itertools.product(dts, dts) if a != b]; rng.shuffle(pairs)
+    for (a, b) in pairs[:(8 if tier == "quick" else 12)]:
+        d = rng.choice([1, 2, 3]); N = [rng.choice([1, 2, 3]) for _ in range(d)]; dim = rng.randrange(d)
+        Ny = list(N); Ny[dim] = rng.choice([1, 2])
+        x = mk(a, N, [1] + [rng.choice([1, 2]) for _ in range(d - 1)] + [1]); y = mk(b, Ny, [1] + [rng.choice([1, 2]) for _ in range(d - 1)] + [1])
+        pd = torch.promote_types(a, b)
+        desc = {"cat_mixed_dtype": True, "first": str(a), "second": str(b), "N": N, "N2": Ny, "dim": dim}
+        try:
+            r = torchtt.cat((x, y), dim); ref = torch.cat((x.full().to(pd), y.full().to(pd)), dim)
+            if any(c.dtype != pd for c in r.cores): V.fail("cat of operands of two dtypes does not have the promoted dtype", dict(desc, got=[str(c.dtype) for c in r.cores], want=str(pd)))
+            elif list(r.full().shape) != list(ref.shape) or not torch.equal(r.full(), ref): V.fail("cat of operands of two dtypes differs from the dense concatenation", desc)
+        except Exception as ex:
+            V.fail("cat of operands of two dtypes raises %s" % type(ex).__name__, dict(desc, exc=str(ex)[:200]))
+        dist["cat mixed dtypes"] = dist.get("cat mixed dtypes", 0) + 1
+    for j in range(6 if tier == "quick" else 40):
+        ttm = j % 2 == 0; dt = [torch.float64, torch.float32][j % 3 == 2]
+        d = rng.choice([1, 2, 3]); N = [rng.choice([1, 2, 3]) for _ in range(d)]; M = [rng.choice([1, 2]) for _ in range(d)]
+        x = mk(dt, N, [1] + [rng.choice([1, 2]) for _ in range(d - 1)] + [1], ttm, M)
+        val = complex(rng.choice([0, 1, 2]), rng.choice([1, -2])); pads = tuple((rng.choice([0, 1]), rng.choice([1, 2])) for _ in range(d))
+        desc = {"pad_complex_value": True, "operator": ttm, "dtype": str(dt), "N": N, "M": M if ttm else None, "value": str(val), "padding": [list(p_) for p_ in pads]}
+        try:
+            r = torchtt.pad(x, pads, value=val); f = r.full()
+            if not f.is_complex(): V.fail("pad with a complex fill value on a real %s returns a real result" % ("operator" if ttm else "tensor"), dict(desc, got=str(f.dtype))); continue
+            xf = x.full().to(f.dtype)
+            if ttm:
+                ref = torch.zeros([m_ + p_[0] + p_[1] for m_, p_ in zip(M, pads)] + [n_ + p_[0] + p_[1] for n_, p_ in zip(N, pads)], dtype=f.dtype)
+                # diagonal padding: value on the diagonal of the padded blocks (row index == column index outside the original block of every padded mode)
+                dense2 = xf.reshape(int(np.prod(M)), int(np.prod(N))) if False else None
+                # build mode by mode: kron structure  P = (+) over modes of [val*I_b, A_k, val*I_a] holds only for order 1; compare order-1 exactly, higher orders on the original block and the corner
+                sl = tuple(slice(p_[0], p_[0] + m_) for m_, p_ in zip(M, pads)) + tuple(slice(p_[0], p_[0] + n_) for n_, p_ in zip(N, pads))
+                if not torch.equal(f[sl], xf): V.fail("pad (operator, complex value): the original block changed", desc)
+                corner = tuple(m_ + p_[0] + p_[1] - 1 for m_, p_ in zip(M, pads)) + tuple(n_ + p_[0] + p_[1] - 1 for n_, p_ in zip(N, pads))
+                if complex(f[corner]) != val: V.fail("pad (operator, complex value): the last diagonal entry is not the fill value", dict(desc, got=str(complex(f[corner]))))
+            else:
+                ref = torch.full([n_ + p_[0] + p_[1] for n_, p_ in zip(N, pads)], val, dtype=f.dtype)
+                ref[tuple(slice(p_[0], p_[0] + n_) for n_, p_ in zip(N, pads))] = xf
+                if list(f.shape) != list(ref.shape) or float((f - ref).abs().max()) > 1e-5: V.fail("pad (tensor, complex value) differs from the dense padding", desc)
+        except Exception as ex:
+            V.fail("pad with a complex fill value raises %s" % type(ex).__name__, dict(desc, exc=str(ex)[:200]))
+        dist["pad complex value " + ("operator" if ttm else "tensor")] = dist.get("pad complex value " + ("operator" if ttm else "tensor"), 0) + 1
+    return {"dtype_block": dist}
+
 def run(tier, seed, replay=None):
     import torch
     dtypes = [(torch.float64, coqrun.Z), (torch.complex128, coqrun.ZI), (torch.float64, coqrun.Z), (torch.float32, coqrun.Z), (torch.complex64, coqrun.ZI)]
     return exprcheck.run(PID, tier, seed, gen_case, 400, 6000, RULE + ("; thorough tier additionally enumerates EVERY small structure of cat, pad (tensors and operators), "
                          "single mode products, diag and to_ttm" if tier == "thorough" else ""), nontrivial, dtypes, evaluate=evaluate,
-                         extra_cases=exhaustive_structures if tier == "thorough" else None)
+                         extra_cases=exhaustive_structures if tier == "thorough" else None, post=_dtype_block)
